@@ -109,6 +109,7 @@ def run_sim_case(case, mon, prop, extra_monitors=None, nontrivial=None):
     mon.count("sim_ticks", h.tick + 1)
     mon.count("sim_containers", len(h.conts))
     mon.count("sim_pipelines", len(h.pipelines))
+    mon.count("sim_suspensions", h.n_suspended)
     if h.exc is not None:
         mon.count("sim_run_raised")
         if prop == "C08":
@@ -117,6 +118,11 @@ def run_sim_case(case, mon, prop, extra_monitors=None, nontrivial=None):
                      exc_type=type(h.exc).__name__, exc_msg=str(h.exc), tick=h.tick, where=h.exc_where,
                      last_decision=h.last_decision, traceback=h.exc_tb,
                      max_ops_per_pipeline=max((len(p.runtime_status().operator_states) for p in h.pipelines), default=0))
+        if prop == "C06" and h.exc_where == "simulator":
+            mon.fail("statistics-raised", f"{case['algo']}: run_simulator raised outside scheduler and executor "
+                                          f"(bookkeeping / statistics): {type(h.exc).__name__}: {h.exc}",
+                     algo=case["algo"], tick=h.tick, max_ticks=h.max_ticks, traceback=h.exc_tb,
+                     containers_ended=h.n_ok + h.n_failed, pipelines=len(h.pipelines))
     mine = [p for p in h.problems if prop in p.tags or ANY in p.tags]
     seen = set()
     for p in mine:
@@ -133,3 +139,42 @@ def run_sim_case(case, mon, prop, extra_monitors=None, nontrivial=None):
                  "ok": h.n_ok, "failed": h.n_failed, "suspended": h.n_suspended,
                  "stats": (h.stats.to_dict() if h.stats is not None else None)})
     return h
+
+
+def preemption_case(rng, algo="priority", oom=False):
+    """Load pattern that makes the priority scheduler preempt: multi-operator batch/interactive
+    pipelines fill the pools (10% each), then queries arrive and must wait for an operator
+    boundary of a running container; suspended work is resumed later."""
+    tps = rng.choice([1, 2, 5, 10, 20, 100])
+    pools = 2 if algo == "priority-pool" else rng.choice([1, 1, 2])
+    cpus = rng.choice([10, 10, 16, 20])
+    R = rng.choice([10, 10, 40, 100, 400])
+    job_ram = max(1, int(R / 10))
+    arrivals = {}
+    nfill = pools * rng.randint(12, 20)
+    for j in range(nfill):
+        t = rng.choice([0, 0, 0, 1, 2, 3])
+        prio = rng.choice(["BATCH_PIPELINE", "BATCH_PIPELINE", "INTERACTIVE"])
+        spec = gen.simple_pipeline(rng, f"f{j}", tps, nops=rng.choice([2, 3, 4, 5]), prio=prio, shape=rng.choice(["chain", "chain", "random"]),
+                                   mode="safe", cpus_hint=1, mem_ref=job_ram * 0.05, maxn=rng.choice([2, 4, 8]), nseg_max=1)
+        for o in spec["ops"]:
+            for s in o["segs"]:
+                big = oom and rng.random() < 0.15
+                s["mem"] = job_ram * (rng.choice([1.5, 3.0]) if big else rng.choice([0.01, 0.1, 0.5]))
+        arrivals.setdefault(str(t), []).append(spec)
+    for j in range(rng.randint(2, 10)):
+        t = rng.randint(1, 40)
+        spec = gen.simple_pipeline(rng, f"q{j}", tps, nops=rng.choice([1, 1, 2]), prio="QUERY", shape="chain", mode="safe",
+                                   cpus_hint=1, mem_ref=job_ram * 0.1, maxn=3, nseg_max=1)
+        for o in spec["ops"]:
+            for s in o["segs"]:
+                s["mem"] = job_ram * rng.choice([0.01, 0.3])
+        arrivals.setdefault(str(t), []).append(spec)
+    for j in range(rng.randint(0, 8)):
+        t = rng.randint(10, 120)
+        arrivals.setdefault(str(t), []).append(
+            gen.simple_pipeline(rng, f"l{j}", tps, nops=rng.choice([1, 3]), prio=rng.choice(gen.PRIOS), mode="safe", cpus_hint=1,
+                                mem_ref=job_ram * 0.1, maxn=4, nseg_max=1))
+    params = {"duration": rng.choice([150, 300, 500]) / tps, "ticks_per_second": tps, "num_pools": pools, "cpus_per_pool": cpus,
+              "ram_gb_per_pool": R, "multi_operator_containers": True, "allow_memory_overcommit": False}
+    return {"kind": "sim", "algo": algo, "params": params, "workload": {"type": "script", "arrivals": arrivals}, "_preempt": True}
